@@ -420,6 +420,9 @@ func (c *EvalCtx) evalObject(obj types.Object) TV {
 		}
 	case *types.Nil:
 		return TV{Term: "0", Sort: "Int", Nil: true}
+	case *types.Func:
+		// a function used as a value: the same constant the encoder uses for *ssa.Function operands
+		return TV{Term: c.enc.ctx.funcRef(o.FullName()), Sort: "Int", T: o.Type()}
 	}
 	_ = s
 	c.errf("cannot evaluate object %s", obj)
@@ -665,6 +668,32 @@ func (c *EvalCtx) evalCall(e *ECall) TV {
 			t = "(s.arr " + x.Term + ")"
 		}
 		return TV{Term: "(> " + t + " " + c.old.get(allocHeap) + ")", Sort: "Bool", T: boolT}
+	case "permuted":
+		// permuted(s): the elements of slice s are a permutation of its elements in the old
+		// state (skolemised both ways) and no other backing array of that element type changed.
+		// Only usable in contracts that are assumed at call sites (trusted / extern).
+		argn(1)
+		x := c.eval(e.Args[0])
+		if c.old == nil || x.Sort != "Slice" || x.T == nil {
+			c.errf("permuted() needs a slice and an old state")
+		}
+		sl := x.T.Underlying().(*types.Slice)
+		h := s.ElemHeap(sl.Elem())
+		c.enc.nquant++
+		id := fmt.Sprint(c.enc.nquant)
+		perm, inv := q("perm$"+id), q("pinv$"+id)
+		c.enc.emit(fmt.Sprintf("(declare-fun %s (Int) Int)", perm))
+		c.enc.emit(fmt.Sprintf("(declare-fun %s (Int) Int)", inv))
+		nw, od := c.st.get(h), c.old.get(h)
+		newArr := "(select " + nw + " (s.arr " + x.Term + "))"
+		oldArr := "(select " + od + " (s.arr " + x.Term + "))"
+		qi := "qp!" + id
+		t1 := fmt.Sprintf("(forall ((%s Int)) (! (=> (and (<= 0 %s) (< %s (s.len %s))) (and (<= 0 (%s %s)) (< (%s %s) (s.len %s)) (= (select %s (at (s.off %s) %s)) (select %s (at (s.off %s) (%s %s)))))) :pattern ((select %s (at (s.off %s) %s)))))",
+			qi, qi, qi, x.Term, perm, qi, perm, qi, x.Term, newArr, x.Term, qi, oldArr, x.Term, perm, qi, newArr, x.Term, qi)
+		t2 := fmt.Sprintf("(forall ((%s Int)) (! (=> (and (<= 0 %s) (< %s (s.len %s))) (and (<= 0 (%s %s)) (< (%s %s) (s.len %s)) (= (select %s (at (s.off %s) (%s %s))) (select %s (at (s.off %s) %s))))) :pattern ((select %s (at (s.off %s) %s)))))",
+			qi, qi, qi, x.Term, inv, qi, inv, qi, x.Term, newArr, x.Term, inv, qi, oldArr, x.Term, qi, oldArr, x.Term, qi)
+		t3 := fmt.Sprintf("(forall ((%s Int)) (! (=> (not (= %s (s.arr %s))) (= (select %s %s) (select %s %s))) :pattern ((select %s %s))))", qi, qi, x.Term, nw, qi, od, qi, nw, qi)
+		return TV{Term: "(and " + t1 + " " + t2 + " " + t3 + ")", Sort: "Bool", T: boolT}
 	case "allocated":
 		argn(1)
 		x := c.eval(e.Args[0])
